@@ -152,6 +152,9 @@ def run_path(src, reg, contract, fnode, fglobs, case_builder, prefix, opts):
             saved_frames = ip.frames
             ip.frames = []
             ctx.ghost['in_spec'] = True
+            body_globals = ctx.ghost.get('globals')
+            if gl:
+                ctx.ghost['globals'] = {n: init_copy['G' + n] for n in gl}      # the spec runs on the initial registries
             try:
                 sres = call_spec(ip, spec, init_copy)
                 soutcome = ('return', sres)
@@ -159,6 +162,7 @@ def run_path(src, reg, contract, fnode, fglobs, case_builder, prefix, opts):
                 soutcome = ('raise', r.cls, r)
             finally:
                 ctx.ghost['in_spec'] = False
+                ctx.ghost['globals'] = body_globals
                 ip.frames = saved_frames
             _compare(ip, contract, params, init_copy, outcome, soutcome)
         # ---- ensures
@@ -376,6 +380,7 @@ def verify_function(src, reg, key, opts=None):
     timeout_ms = opts.get('timeout_ms', QUICK_TIMEOUT_MS)
     max_paths = opts.get('max_paths', 20000)
     only = opts.get('only')
+    failed_names = set()
     try:
         for label, builder in build_cases(reg, contract, fnode):
             todo = [[]]
@@ -408,7 +413,18 @@ def verify_function(src, reg, key, opts=None):
                 for ob in ctx.obls:
                     if only and not re.search(only, ob.name):
                         continue
-                    r = inc.solve(ob, opts.get('cvc5', True))
+                    if ob.name in failed_names:
+                        # the same obligation already failed on another path: not solved again
+                        # (satisfiable queries over byte strings are slow; one failure decides)
+                        r = {'status': 'failed', 'backend': 'not-solved(same obligation failed on another path)',
+                             'time_s': 0.0}
+                        for c_ in ob.pc[inc.n:]:
+                            inc.s.add(c_)
+                        inc.n = max(inc.n, len(ob.pc))
+                    else:
+                        r = inc.solve(ob, opts.get('cvc5', True))
+                        if r['status'] != 'discharged':
+                            failed_names.add(ob.name)
                     r.update({'name': ob.name, 'kind': ob.kind, 'case': label, 'path': pstr,
                               'outcome': ctx.ghost.get('outcome', status)})
                     if ob.info:
